@@ -3,8 +3,32 @@ package h
 import (
 	"bufio"
 	"encoding/json"
+	"io"
 	"os"
+
+	pfs "github.com/akrylysov/pogreb/fs"
 )
+
+// ReadWhole reads a file through a pogreb FileSystem.
+func ReadWhole(root pfs.FileSystem, name string) ([]byte, error) {
+	f, err := root.OpenFile(name, os.O_RDONLY, 0640)
+	if err != nil {
+		return nil, err
+	}
+	defer f.Close()
+	st, err := f.Stat()
+	if err != nil {
+		return nil, err
+	}
+	b := make([]byte, st.Size())
+	if len(b) == 0 {
+		return b, nil
+	}
+	if _, err := f.ReadAt(b, 0); err != nil && err != io.EOF {
+		return nil, err
+	}
+	return b, nil
+}
 
 // LoadPrograms reads one program per line.
 func LoadPrograms(path string) ([]*Program, error) {
@@ -41,6 +65,7 @@ type RunParams struct {
 	Probe      bool   `json:"probe"`
 	FullEvery  int    `json:"fullevery"`
 	Alt        bool   `json:"alt"`
+	Hold       bool   `json:"hold"`
 }
 
 // RegressItem is a program plus runner settings.
